@@ -1,4 +1,5 @@
 import PycsepVerif.Model.Readers
+import PycsepVerif.Model.PersistText
 /-
   TEXT-LEVEL model of the catalog readers (property C19): from the characters of a file to the tokens that
   `Model/Readers.lean` starts from, i.e. the part of csep/utils/readers.py that was "trusted tokenisation":
@@ -261,6 +262,14 @@ def csepFile (text : Str) : Option Result :=
   some (match (lines text).mapM (fun l => csepTokens (splitOn ',' l)) with
     | none => .error .badRow
     | some ls => decodeCsep ls)
+
+/-- `csep_ascii(fname)` from the characters of the file WITH csv quoting: the records are those of the csv reader's
+    state machine (`PersistText.csvRead`: quoted cells, doubled quotes, line ends inside quotes, "\n" / "\r\n" / "\r"
+    record ends; an empty line is the empty record, on which `line[0]` raises).  No input is outside this model. -/
+def csepFileQ (text : Str) : Result :=
+  match (PersistText.csvRead text).mapM csepTokens with
+  | none => .error .badRow
+  | some ls => decodeCsep ls
 
 /-! ## ZMAP -/
 
